@@ -501,7 +501,7 @@ def cid(name):
 class Emitter:
     def __init__(s, m, stubs, overrides, nsw_checks=False, prefix='', keep=()):
         s.m = m; s.stubs = set(stubs); s.overrides = overrides; s.lit = {}; s.out = []; s.nsw = nsw_checks
-        s.prefix = prefix; s.keep = set(keep)
+        s.prefix = prefix; s.keep = set(keep); s.env_tables = {}
         s.used_types = []; s.seen_named = set()
 
     def gname(s, name):
@@ -601,6 +601,7 @@ class Emitter:
 
     def val(s, v):
         k = v.kind
+        if k == 'raw': return v.text
         if k == 'reg': return 'v_' + cid(v.name)
         if k == 'glob':
             if v.name in s.m.funcs: return s.gname(v.name)
@@ -643,6 +644,7 @@ class Emitter:
 
     def sx(s, v):
         """value as signed 64-bit index expression"""
+        if v.kind == 'raw': return v.text
         rt = s.resolve(v.ty)
         if v.kind == 'int':
             n = rt.n; x = v.val & ((1 << n) - 1)
@@ -809,25 +811,81 @@ class Emitter:
         for r, ty in decls.items():
             o.append('  ' + s.cdecl(ty, 'v_' + cid(r)) + ';')
         body = []
-        # GEPs used only as load/store addresses inside their own block are inlined as lvalues
+        # GEPs used only as load/store addresses are never materialised as pointers (CBMC turns a pointer with a
+        # symbolic offset into byte-level operations over the whole object): base and non-constant indices are
+        # snapshotted where the GEP is defined and every use is emitted as a direct lvalue T[i][j].f
         inl = {}
         for b in fn.blocks:
-            cand = {ins.res: ins for ins in b.ins if ins.op == 'gep'}
-            for r in cand: inl[r] = cand[r]
+            for ins in b.ins:
+                if ins.op == 'gep' and ins.res: inl[ins.res] = ins
         for b in fn.blocks:
-            local = {ins.res for ins in b.ins if ins.op == 'gep'}
             for ins in b.ins:
                 for k, v in ins.__dict__.items():
                     vs = [v] if isinstance(v, V) else ([x for x in v if isinstance(x, V)] + [y for x in v if isinstance(x, tuple) for y in x if isinstance(y, V)]) if isinstance(v, list) else []
                     for x in vs:
                         for r in s.regs_in(x):
                             if r in inl:
-                                ok = (ins.op in ('load', 'store') and k == 'ptr' and x.kind == 'reg' and r in local)
+                                ok = (ins.op in ('load', 'store') and k == 'ptr' and x.kind == 'reg')
                                 if not ok: inl.pop(r)
-        def lv(ptr):
+        psel = {}
+        for b in fn.blocks:
+            for ins in b.ins:
+                if ins.op == 'select' and ins.res and isinstance(s.resolve(ins.ty), TPtr): psel[ins.res] = ins
+        for b in fn.blocks:
+            for ins in b.ins:
+                for k, v in ins.__dict__.items():
+                    vs = [v] if isinstance(v, V) else ([x for x in v if isinstance(x, V)] + [y for x in v if isinstance(x, tuple) for y in x if isinstance(y, V)]) if isinstance(v, list) else []
+                    for x in vs:
+                        for r in s.regs_in(x):
+                            if r in psel and not (ins.op in ('load', 'store') and k == 'ptr' and x.kind == 'reg'): psel.pop(r)
+        # operands of a kept pointer-select count as load/store uses of the GEPs they name: re-admit those GEPs
+        geps = {ins.res: ins for b in fn.blocks for ins in b.ins if ins.op == 'gep' and ins.res}
+        for r, g in geps.items():
+            if r in inl: continue
+            ok = True
+            for b in fn.blocks:
+                for ins in b.ins:
+                    for k, v in ins.__dict__.items():
+                        vs = [v] if isinstance(v, V) else ([x for x in v if isinstance(x, V)] + [y for x in v if isinstance(x, tuple) for y in x if isinstance(y, V)]) if isinstance(v, list) else []
+                        for x in vs:
+                            if r in s.regs_in(x):
+                                if ins.op in ('load', 'store') and k == 'ptr' and x.kind == 'reg': continue
+                                if ins.op == 'select' and ins.res in psel and k in ('a', 'b') and x.kind == 'reg': continue
+                                ok = False
+            if ok: inl[r] = g
+        snap = {}
+        def snapshot(g):
+            """returns (statements executed at the definition point, lvalue expression)"""
+            stm = []; r = cid(g.res)
+            base = g.base
+            if base.kind == 'reg':
+                o.append('  ' + s.cdecl(base.ty, 'gb_' + r) + ';'); stm.append('gb_%s = %s;' % (r, s.val(base)))
+                base = V('raw', base.ty, text='gb_' + r)
+            idx = []
+            for k, ix in enumerate(g.idx):
+                if ix.kind == 'int': idx.append(ix)
+                else:
+                    o.append('  int64_t gi_%s_%d;' % (r, k)); stm.append('gi_%s_%d = (int64_t)%s;' % (r, k, s.sx(ix)))
+                    idx.append(V('raw', ix.ty, text='gi_%s_%d' % (r, k)))
+            s.gep(g.bty, base, idx)
+            return ' '.join(stm), s._gep_lvalue
+        def lv(ptr, store=False):
+            if ptr.kind == 'reg' and ptr.name in psel: raise NotImplementedError('nested pointer select')
             if ptr.kind == 'reg' and ptr.name in inl:
-                g = inl[ptr.name]; s.gep(g.bty, g.base, g.idx); return s._gep_lvalue
+                g = inl[ptr.name]
+                if g.base.kind == 'glob' and g.base.name in s.env_tables:
+                    # environment table: contents are the harness's business (arbitrary / memoised); reads become calls
+                    if store: raise NotImplementedError('store to environment table ' + g.base.name)
+                    return envsnap[ptr.name]
+                return snap[ptr.name]
+            if ptr.kind == 'cexpr' and ptr.op == 'gep' and ptr.base.kind == 'glob' and ptr.base.name in s.env_tables:
+                if store: raise NotImplementedError('store to environment table ' + ptr.base.name)
+                return '%s(%s)' % (s.env_tables[ptr.base.name], ', '.join('(uint64_t)' + s.sx(ix) for ix in ptr.idx[1:]))
+            if ptr.kind == 'glob' and ptr.name in s.env_tables:
+                if store: raise NotImplementedError('store to environment table ' + ptr.name)
+                return '%s()' % s.env_tables[ptr.name]
             return '*' + s.val(ptr)
+        envsnap = {}
         def phi_moves(frm, to):
             tb = [b for b in fn.blocks if b.label == to][0]
             mv = []
@@ -886,12 +944,30 @@ class Emitter:
                     else: e = f
                     body.append('  %s%s;' % (R, e))
                 elif op == 'cast': body.append('  %s%s;' % (R, s.cast(ins.cop, ins.src, ins.ty)))
-                elif op == 'load': body.append('  %s%s;' % (R, lv(ins.ptr)))
-                elif op == 'store': body.append('  %s = %s;' % (lv(ins.ptr), s.val(ins.val)))
+                elif op == 'load':
+                    if ins.ptr.kind == 'reg' and ins.ptr.name in psel:
+                        ps = psel[ins.ptr.name]
+                        body.append('  %s(gc_%s ? %s : %s);' % (R, cid(ps.res), lv(ps.a), lv(ps.b)))
+                    else: body.append('  %s%s;' % (R, lv(ins.ptr)))
+                elif op == 'store':
+                    if ins.ptr.kind == 'reg' and ins.ptr.name in psel:
+                        ps = psel[ins.ptr.name]
+                        body.append('  if (gc_%s) { %s = %s; } else { %s = %s; }' % (cid(ps.res), lv(ps.a, True), s.val(ins.val), lv(ps.b, True), s.val(ins.val)))
+                    else: body.append('  %s = %s;' % (lv(ins.ptr, True), s.val(ins.val)))
                 elif op == 'gep':
-                    if ins.res in inl: continue
+                    if ins.res in inl:
+                        stm, snap[ins.res] = snapshot(ins)
+                        if stm: body.append('  ' + stm)
+                        if ins.base.kind == 'glob' and ins.base.name in s.env_tables:
+                            r = cid(ins.res)
+                            args = ['(uint64_t)' + (s.sx(ix) if ix.kind == 'int' else 'gi_%s_%d' % (r, k)) for k, ix in enumerate(ins.idx)][1:]
+                            envsnap[ins.res] = '%s(%s)' % (s.env_tables[ins.base.name], ', '.join(args))
+                        continue
                     body.append('  %s%s;' % (R, s.gep(ins.bty, ins.base, ins.idx)))
-                elif op == 'select': body.append('  %s(%s ? %s : %s);' % (R, s.val(ins.c), s.val(ins.a), s.val(ins.b)))
+                elif op == 'select':
+                    if ins.res in psel:
+                        o.append('  _Bool gc_%s;' % cid(ins.res)); body.append('  gc_%s = %s;' % (cid(ins.res), s.val(ins.c)))
+                    else: body.append('  %s(%s ? %s : %s);' % (R, s.val(ins.c), s.val(ins.a), s.val(ins.b)))
                 elif op == 'alloca':
                     nalloca += 1
                     assert ins.n is None or ins.n.kind == 'int'
@@ -994,7 +1070,7 @@ class Emitter:
             protos.append(s.proto(fn) + ';' + ('  /* EXTERNAL */' if fn.decl else ('  /* STUBBED */' if f in s.stubs else '')))
         gl = []
         for g in sorted(s.gl_used):
-            if g not in s.m.globals:
+            if g not in s.m.globals or g in s.env_tables:
                 continue
             ty, init, const = s.m.globals[g]
             name = s.gname(g)
@@ -1033,7 +1109,12 @@ class Emitter:
         for k, (nm, t) in list(s.lit.items()): need(t)
         ext = []
         for g in sorted(s.gl_used):
-            if g in s.m.globals: ext.append('extern ' + s.cdecl(s.m.globals[g][0], s.gname(g)) + ';')
+            if g in s.m.globals and g not in s.env_tables: ext.append('extern ' + s.cdecl(s.m.globals[g][0], s.gname(g)) + ';')
+        for g, fnm in s.env_tables.items():
+            if g not in s.m.globals: continue
+            t = s.m.globals[g][0]; nd = 0
+            while isinstance(s.resolve(t), TArr): t = s.resolve(t).el; nd += 1
+            protos.append(s.cdecl(t, '%s(%s)' % (fnm, ', '.join(['uint64_t'] * nd) or 'void')) + ';  /* ENVIRONMENT TABLE %s */' % g)
         s.header = '\n'.join(['#include "ll2c_rt.h"'] + fwd + defs + [''] + protos + [''] + ext + [''])
         return '\n'.join(['#include "ll2c_rt.h"'] + fwd + defs + [''] + protos + [''] + gl + [''] + funcs)
 
